@@ -1121,15 +1121,21 @@ fn replay_contains_cmd(a: &HashMap<String, String>) -> i32 {
         n += 1;
         let hay: Vec<u8> = serde_json::from_value(v["hay"].clone()).unwrap();
         let needle: Vec<u8> = serde_json::from_value(v["needle"].clone()).unwrap();
-        let o = contains::observe(&mut r, &hay, &needle);
+        let prior: Vec<Vec<u8>> = v["prior"].as_array().map(|a| a.iter().map(|p| serde_json::from_value(p["needle"].clone()).unwrap()).collect()).unwrap_or_default();
+        let o = contains::observe_after(&mut r, &hay, &needle, &prior);
         if o["simd"] == true {
             simd += 1;
         }
         let mut diffs = Vec::new();
         for run in o["runs"].as_array().unwrap() {
             runs += 1;
+            let a = run["anchor"].as_u64().unwrap_or(0) as usize;
             if run["out"] != "ok" {
                 diffs.push(format!("anchor {}: panic", run["anchor"]));
+            } else if a >= 1000 {
+                if run["res"] != v["prior"][a - 1000]["exp"] {
+                    diffs.push(format!("filter compiled earlier (pattern {}): expected {} observed {} (simd={})", v["prior"][a - 1000]["needle"], v["prior"][a - 1000]["exp"], run["res"], o["simd"]));
+                }
             } else if run["res"] != v["exp"] {
                 diffs.push(format!("anchor {}: expected {} observed {} (simd={})", run["anchor"], v["exp"], run["res"], o["simd"]));
             }
